@@ -21,7 +21,7 @@ RULE_TEXT = ('runs = full product spawn site (all site x phase placements - the 
              'seeded random cases with several sites, several slow children and random timeout histories. '
              'Non-trivial = a child that outlives or nearly outlives its limit (behaviour != fast) was spawned; '
              'distinct = (site, phase, behaviour, timeout configuration, N).')
-REACH_PROBES = ['killed_at_deadline', 'finished_just_below', 'hang_as_specified', 'ignores_sigterm_killed',
+REACH_PROBES = ['timeout_set_by_a_suite_instruction_from_a_case_symbol', 'killed_at_deadline', 'finished_just_below', 'hang_as_specified', 'ignores_sigterm_killed',
                 'cleanup_after_timeout', 'timeout_in_assert_is_hard_error', 'timeout_zero', 'set_after_use_not_applied',
                 'none_lifts_limit', 'atc_killed', 'text_source_killed', 'matcher_killed', 'transformer_killed',
                 'stdin_program_killed', 'multi_slow']
@@ -45,6 +45,10 @@ SITES = [
     ('stdout_transformed_by_run_ignore_exit', ('assert',),
      ['stdout -transformed-by run -ignore-exit-code % {S}', '  is-empty'], 'transformer'),
     ('file_stdout_from_ignore_exit', MULTI, ['file f{N}.txt = -stdout-from -ignore-exit-code % {S}'], 'text_source'),
+    # command lines with characters that mean something to str.format / % formatting (the message about a timeout quotes
+    # the command line)
+    ('run_args_with_braces', MULTI, ["run % {S} '{}' '{0}' x{y 100%s"], 'instr'),
+    ('shell_with_braces', MULTI, ['$ {S} ${HOME} { a; } %d'], 'instr'),
     ('env_value', MULTI, ['env -of !act X{N} = -stdout-from % {S}'], 'text_source'),
     ('env_value_both_sets', ('setup',), ['env X{N} = -stdout-from % {S}'], 'text_source'),
     ('setup_stdin_value', ('setup',), ['stdin = -stdout-from % {S}'], 'lazy_stdin'),
@@ -64,6 +68,7 @@ SITES = [
     ('atc_program_symbol', ('act',), ['@ PS{N} actarg'], 'atc'),
     ('atc_command_line', ('act',), ['% {S}'], 'atc'),
     ('atc_shell', ('act',), ['$ {S}'], 'atc'),
+    ('atc_shell_with_braces', ('act',), ['$ {S} ${HOME} {}'], 'atc'),
     ('atc_file_interpreter', ('act',), ['src.py a1'], 'atc_file'),
     ('atc_source_interpreter', ('act',), ['source line one', 'source line two'], 'atc_source'),
 ]
@@ -180,6 +185,7 @@ def build(seed, tier, sites, cfg, n_value, g, sweep=False):
             'knobs': {'mem_buff_size': g.choice([1, 8192])}, 'entry': 'cli', 'cfg': cfg, 'N': N,
             'conf': conf, 'act': act, 'files': files, 'sites': site_recs, 'sweep': sweep,
             'layout': _layout(phases, first, timeout_lines), 'procs': {}, 'keep': (not sweep) and g.random() < 0.25}
+    plan['after_case_in_suite'] = kernel.stream(seed, 'suite').random() < (0.08 if sweep else 0.2)
     _behaviours(plan)
     return plan
 
@@ -217,6 +223,21 @@ def _layout(phases, first, tl):
     return out
 
 
+def limit_at_end_of_act(plan):
+    """The timeout in force when [before-assert] begins (no `timeout` can be written in [act])."""
+    t = S.DEFAULT_TIMEOUT
+    for e in plan['layout']['setup']:
+        if e[0] == 'timeout':
+            t = e[1]
+    return t
+
+
+def in_suite_mode(plan):
+    """The case runs as the second case of a suite whose file supplies `timeout = @[TSUITE]@` at the start of
+    [before-assert]; the case defines TSUITE as the value that is in force there anyway, the case before it as 599."""
+    return bool(plan.get('after_case_in_suite')) and not plan.get('keep') and limit_at_end_of_act(plan) is not None
+
+
 def render(plan):
     lines = []
     if plan['conf']:
@@ -241,6 +262,8 @@ def render(plan):
                 lines.append('timeout = %s' % ('none' if e[1] is None else e[1]))
             else:
                 lines.extend(e[2])
+        if ph == 'setup' and in_suite_mode(plan):
+            lines.append('def string TSUITE = %d' % limit_at_end_of_act(plan))
     return '\n'.join(lines) + '\n'
 
 
@@ -366,8 +389,22 @@ def execute(plan, scratch):
     w.write('home/t.case', text)
     w.populate(plan.get('files', {}))
     sim = kernel.Sim(plan, w)
+    suite_mode = in_suite_mode(plan)
+    if suite_mode:
+        w.write('home/warm.case', '[setup]\ndef string TSUITE = 599\n[act]\n% warm-atc\n[before-assert]\n% warm-ba\n')
+        w.write('home/s.suite', '[cases]\nwarm.case\nt.case\n[before-assert]\ntimeout = @[TSUITE]@\n')
     with patches.installed(sim):
-        res = host.run_cli(sim, (['--keep'] if plan.get('keep') else []) + ['t.case'])
+        if suite_mode:
+            res = host.run_cli(sim, ['suite', 's.suite'], tap=True)
+            ident = ''
+            for line in res['stdout'].split('\n'):
+                if 't.case' in line and line.strip().split():
+                    ident = line.strip().split()[-1]
+            res['stdout'] = ident + '\n'
+            res['exit'] = {'PASS': 0, 'HARD_ERROR': 128, 'FAIL': 32, 'INTERNAL_ERROR': 129, 'VALIDATION_ERROR': 65,
+                           'SYNTAX_ERROR': 65}.get(ident, res['exit'])
+        else:
+            res = host.run_cli(sim, (['--keep'] if plan.get('keep') else []) + ['t.case'])
         leftover = w.tmp_entries() if not plan.get('keep') else []
         digest = sim.digest()
     if plan.get('keep'):
@@ -376,8 +413,9 @@ def execute(plan, scratch):
                'terminated': s['terminated'], 'reaped': s['reaped'], 'exit': s['exit'], 't_spawn': s['t_spawn'],
                't_kill': s.get('t_kill'), 't_term': s.get('t_term'), 't_end': s.get('t_end'), 'hang': s.get('hang', False),
                'seq': s['seq']}
-              for s in sim.spawns]
-    hist = {'text': text, 'result': res, 'spawns': spawns, 'leftover': leftover, 'n_sandboxes': len(sim.sandboxes),
+              for s in sim.spawns if not s['tag'].startswith('warm-')]
+    hist = {'text': text, 'result': res, 'spawns': spawns, 'leftover': leftover,
+            'n_sandboxes': len(sim.sandboxes) - (1 if suite_mode else 0),
             'orphans': [c.tag for c in sim.children if c.returncode is None and not c.rec.get('hang')],
             'digest': digest, 'sim_seconds': sim.clock.advanced}
     x = expected(plan)
@@ -407,6 +445,8 @@ def execute(plan, scratch):
             pr['finished_just_below'] = 1
         if r['T'] is None and r['behaviour'] in ('above', 'ten_times') and s['reaped'] and not s['killed']:
             pr['none_lifts_limit'] = 1
+    if suite_mode:
+        pr['timeout_set_by_a_suite_instruction_from_a_case_symbol'] = 1
     if res.get('hang') and x['hang']:
         pr['hang_as_specified'] = 1
     if sum(1 for r in plan['sites'] if r['behaviour'] != 'fast') > 1:
@@ -483,6 +523,8 @@ def oracle(plan, hist):
                 bad('no_retry_after_timeout', 'a timed-out process is not started again', s['tag'])
         total_allowed += (min(dur, T) if T is not None else dur) + (1.0 if (s['killed'] or s['terminated']) else 0.0)
     # -- bounded liveness
+    if in_suite_mode(plan):
+        total_allowed += 0.02  # the two fast children of the case that runs before this one
     if hist['sim_seconds'] > total_allowed + 1e-6:
         bad('liveness.returns_within_sum_of_limits', {'simulated_seconds_at_most': total_allowed}, hist['sim_seconds'])
     # -- outcome
